@@ -7745,6 +7745,12 @@ SRCG_UNITS.append(
      [("MulticastParser", "normalise_addr", {"addr": "str"}),
       ("DictUpdater", "update", {"data": "srec", "self.topic": "str", "self.unique_key": "str"})]))
 STATE["MulticastParser"] = STATE["DictUpdater"] = ()
+SRCG_UNITS.append(
+    # C12: netaddr/core.py num_bits -- both definitions: the one the module uses (`try:` probes int.bit_length, the def sits in
+    # the try body) and the fallback of the `except AttributeError:` handler (dead on every supported Python)
+    ("netaddr/core.py", "pysrc_core_gen.v", "core_", " Model.SrcPreludeSRCE Model.SrcPreludeCmp Model.SrcPreludeG",
+     [(None, "num_bits:bit_length", {"int_val": "int"}), (None, "num_bits:fallback", {"int_val": "int"})]))
+FUEL[(None, "num_bits:fallback", 1)] = ("int_val", 1)        # one `>>= 1` per iteration: at most int_val (in fact its bit length) of them
 # the constant keys of a registration record, in the order of the `orec` tuple (= the dict literal the class writes), per class
 SRCG_REC_KEYS = {"OUI": ("idx", "oui", "org", "address", "offset", "size"), "IAB": ("idx", "iab", "org", "address", "offset", "size")}
 SRCG_REC_TYPES = ("int", "str", "str", ("list", "str"), "int", "int")
@@ -7931,6 +7937,29 @@ class SrcgPrepare(ast.NodeTransformer):
         return st
 
 
+SRCG_PICK = [None]         # which of the two definitions of core.num_bits Module.function answers while FnG reads that unit
+_module_function_before_SRCG = Module.function
+
+
+def _srcg_module_function(self, name):
+    if self.fn == "netaddr/core.py" and name == "num_bits" and SRCG_PICK[-1] in ("bit_length", "fallback"):
+        # `try: <probe>; def num_bits(..): .. / except AttributeError: def num_bits(..): ..` at module level, nothing else binds the name
+        tries = [t for t in self.tree.body if isinstance(t, ast.Try) and any(isinstance(n, ast.FunctionDef) and n.name == name for n in ast.walk(t))]
+        defs = [n for n in ast.walk(self.tree) if isinstance(n, ast.FunctionDef) and n.name == name]
+        other = [n for n in ast.walk(self.tree) if isinstance(n, ast.Name) and n.id == name and isinstance(n.ctx, ast.Store)]
+        t = tries[0] if len(tries) == 1 else None
+        a = [st for st in (t.body if t else []) if isinstance(st, ast.FunctionDef) and st.name == name]
+        b = [st for h in (t.handlers if t else []) for st in h.body if isinstance(st, ast.FunctionDef) and st.name == name]
+        if (t is None or other or len(defs) != 2 or len(a) != 1 or len(b) != 1 or len(t.handlers) != 1 or dotted(t.handlers[0].type) != "AttributeError"
+                or t.orelse or t.finalbody or a[0].decorator_list or b[0].decorator_list):
+            bad(defs[0] if defs else None, "core.num_bits is not defined once in a try body and once in its `except AttributeError` handler")
+        return a[0] if SRCG_PICK[-1] == "bit_length" else b[0]
+    return _module_function_before_SRCG(self, name)
+
+
+Module.function = _srcg_module_function
+
+
 class FnG(FnE):
     """the constructs of the SRCG units (docstring paragraph SRCG); everything else goes to FnE / Fn unchanged"""
 
@@ -7970,7 +7999,16 @@ class FnG(FnE):
 
     def __init__(self, tr, recv, name, ptypes):
         self.g_types = dict(ptypes)
-        super().__init__(tr, recv, name, {k: v for k, v in ptypes.items() if not k.startswith("self.")})
+        SRCG_PICK.append(name.partition(":")[2] if tr.out == "pysrc_core_gen.v" else None)
+        try:
+            super().__init__(tr, recv, name, {k: v for k, v in ptypes.items() if not k.startswith("self.")})
+        finally:
+            SRCG_PICK.pop()
+
+    def bool_(self, node, env):
+        if isinstance(node, ast.Name) and env.get(node.id, ("",))[0] == "int" and self.tr.out == "pysrc_core_gen.v":
+            return "(negb (%s =? 0))" % env[node.id][1]        # the truth value of an int
+        return super().bool_(node, env)
 
     def unit_init(self, env):
         """pseudo-parameters "self.<attr>" (the attribute is a leading parameter of the method), parameter types "tup:t1,t2,.." """
@@ -8568,6 +8606,8 @@ class FnG(FnE):
         name = f.id if isinstance(f, ast.Name) else None
         if name == "__g_sd_new":
             return ("sdict", "py_sd_new")
+        if (isinstance(f, ast.Attribute) and f.attr == "bit_length" and not node.args and not node.keywords and self.tr.out == "pysrc_core_gen.v"):
+            return ("int", "(py_num_bits %s)" % self.int_(f.value, env))      # int.bit_length(): SrcPreludeCmp.py_num_bits (Order.num_bits)
         if name == "__g_dict_item":
             kt = self.objname(node.args[0], env)
             if kt is None:
